@@ -1,4 +1,5 @@
 import GitSizer.Driver.Graph
+import GitSizer.Driver.Refs
 import GitSizer.Model.ScanCheck
 /-! Engine `e2e`: generated repositories written as real git repositories (loose / repacked /
     gc'ed, adversarial commit dates), scanned by the real `git-sizer` binary. The JSON numbers are
@@ -12,6 +13,29 @@ open GitSizer GitSizer.Spec
 def parseIdxList (s : String) (sep : String) : Option (List Nat) :=
   if s == "-" || s.isEmpty then some [] else (s.splitOn sep).mapM String.toNat?
 
+/-- The harness computes the walked roots of a case itself (explicit ROOT arguments first, then the selected
+    references in listing order). For the selection options it generates (--branches, --tags, --no-tags) the
+    same list is recomputed here from the PROVED specification of reference selection (`Spec.categorizeSpec`,
+    `C06.last_match`) and the regenerated flag table; `some why` = the harness and the specification disagree. -/
+def selectionCheck (refsS argsS : String) (roots : List Nat) : Option String :=
+  let args := (splitList argsS ",").filterMap fun h => (Bytes.ofHex h).map Bytes.toStringLossy
+  let flags := (args.filter (·.startsWith "--")).map (fun a => (a.drop 2).toString)
+  let explicit := args.filter (fun a => !a.startsWith "--")
+  if !flags.all (fun f => ["branches", "tags", "no-tags"].contains f) then none else
+  let refs : List (Bytes × Nat) := (splitList refsS ",").filterMap fun e =>
+    match (e.splitOn "=").reverse with
+    | v :: nameParts@(_ :: _) => ((v.splitOn "@").headD "").toNat?.map fun i => (Bytes.ofString ("=".intercalate nameParts.reverse), i)
+    | _ => none
+  if refs.length != (splitList refsS ",").length then some "undecodable reference list" else
+  let names := refs.map (·.1)
+  match refsRun Spec.lookupExact (mkEnv [] names true) [] (flags.map fun f => ⟨f, none⟩) (!explicit.isEmpty) names Spec.categorizeSpec with
+  | ["ok", _, cats] =>
+    let walks := (splitList cats ",").map fun (c : String) => c.startsWith "1"
+    let expected := ((refs.zip walks).filter (·.2)).map (·.1.2)
+    let actual := roots.drop explicit.length
+    if expected != actual then some s!"the harness walks the references' objects {actual}, the specification of reference selection gives {expected}" else none
+  | other => some s!"the selection specification rejects the generated options: {other}"
+
 def e2eEngine : Engine := fun inp obs =>
   match inp with
   | [repoS, _times, refsS, argsS, rootsS, style, layout] =>
@@ -19,6 +43,7 @@ def e2eEngine : Engine := fun inp obs =>
     | some r, some roots =>
       let nrefs := if refsS == "-" then 0 else (refsS.splitOn ",").length
       let D := reachList r roots
+      if let some why := (if layout.endsWith "!badroot" then none else selectionCheck refsS argsS roots) then .bad s!"root oracle: {why}" else
       if layout.endsWith "!badroot" then
         (match obs with
          | ["dup"] => .ok "trivial"
